@@ -71,7 +71,23 @@ theorem batch_projection_fold {SB S1 I IB : Type} (stepB : SB → IB → SB) (st
     simp only [List.foldl_cons, List.map_cons]
     rw [ih (stepB s i), h s i]
 
+
+/-- **Table induction** (C20, Victor–Purpura dynamic programme): a predicate that holds on row 0 and column 0 of a
+two-dimensional table and is carried from the three already-computed neighbours (r, c+1), (r+1, c), (r, c) to
+(r+1, c+1) - the per-cell step contract discharged by the solver on the real loop body - holds on every cell. -/
+theorem grid_invariant (P : Nat → Nat → Prop) (row0 : ∀ c, P 0 c) (col0 : ∀ r, P r 0)
+    (step : ∀ r c, P r (c + 1) → P (r + 1) c → P r c → P (r + 1) (c + 1)) : ∀ r c, P r c := by
+  intro r
+  induction r with
+  | zero => exact row0
+  | succ r ih =>
+    intro c
+    induction c with
+    | zero => exact col0 (r + 1)
+    | succ c ihc => exact step r c (ih (c + 1)) ihc (ih c)
+
 #print axioms refinement_fold
 #print axioms invariant_fold
 #print axioms delay_is_time_shift
 #print axioms batch_projection_fold
+#print axioms grid_invariant
